@@ -15,7 +15,7 @@
         O1 C|I|N | O2 C|I|N     stdout_* / stderr_*
         T i <int> | T f | T n | T !     timeout_ms(integral | fractional | non-finite | not a number)
         R                       run()
-       output: "M <id>", one "spawn <spec>" per specification handed to the backend (the
+       output: "M <id>", one "spawn <spec> L=<abs|rel|search> A0=<hex argv0>" per specification handed to the backend (the
        backend oracle always succeeds), then "end ok" | "end err <kind>". *)
 open ModelProc
 open Modes
@@ -124,7 +124,11 @@ let proc_mode inp outp =
     | Some (allow, c) ->
         let pol = { allow_process = allow; process_caps = c } in
         let ((log, err), _) = run_script spawn_ok pol !sprog (List.rev !steps) in
-        List.iter (fun s -> output_string oc ("spawn " ^ dump_spec s ^ "\n")) log;
+        let lookup_name s = match spec_lookup s with
+          | LookupAbsolute _ -> "abs" | LookupRelative _ -> "rel" | LookupSearch _ -> "search" in
+        List.iter (fun s ->
+          output_string oc ("spawn " ^ dump_spec s ^ " L=" ^ lookup_name s ^ " A0=" ^
+                            hex_of_bytes (List.hd (spec_argv s)) ^ "\n")) log;
         (match err with
          | None -> output_string oc "end ok\n"
          | Some e -> output_string oc ("end err " ^ rt_name e ^ "\n"));
